@@ -1,11 +1,13 @@
 #!/bin/sh
 # Applies every harmless patch to a scratch copy of /repo and runs ALL claimed property checks
 # against it: none may raise an alarm (exit 1). Slow (about 3 minutes per patch).
+# usage: selftest/run_harmless_all.sh [patch ...]   (default: all harmless patches)
 export GOFLAGS=-mod=mod GOPROXY=off GOSUMDB=off GOTOOLCHAIN=local
 cd "$(dirname "$0")/.." || exit 2
 props=$(python3 -c "import json;print(' '.join(x['id'] for x in json.load(open('props.json'))))")
 fail=0
-for p in selftest/harmless/*.patch; do
+[ $# -eq 0 ] && set -- selftest/harmless/*.patch
+for p in "$@"; do
   scratch=$(mktemp -d /tmp/selftestall.XXXXXX)
   cp -r /repo "$scratch/repo"
   if ! (cd "$scratch/repo" && git apply --whitespace=nowarn "$OLDPWD/$p" 2>/dev/null); then echo "SELFTEST-ERROR $p does not apply"; fail=1; rm -rf "$scratch"; continue; fi
